@@ -1,41 +1,75 @@
 (* C04 -- glue for the correspondence run: the observations the implementation driver
    (harness/impl/c04_driver.py: observe) reports after every call, computed by the model and
    flattened to one nested list of naturals so that one equality test compares everything. *)
-From Coq Require Import List Arith Bool.
+From Coq Require Import List Arith Bool NArith.
 From Verif.lib Require Import FinSet.
 From Verif.C04 Require Import Model.
 Import ListNotations.
 
-Definition ob := list (list mi).
+Definition ob := list N.
 
 Definition b2n (b : bool) : nat := if b then 1 else 0.
-Definition pairs_mi (l : list (nat * nat)) : list mi := map (fun r => [fst r; snd r]) l.
 
-Fixpoint row_idx_aux (j : nat) (r : list bool) : mi :=
-  match r with [] => [] | b :: r' => if b then j :: row_idx_aux (S j) r' else row_idx_aux (S j) r' end.
-Definition row_idx := row_idx_aux 0.
+(* np.ravel_multi_index(idx, shape), C order *)
+Fixpoint ravel_aux (acc : nat) (shape idx : list nat) : nat :=
+  match shape, idx with
+  | n :: shape', i :: idx' => ravel_aux (acc * n + i) shape' idx'
+  | _, _ => acc
+  end.
+Definition ravel (shape idx : list nat) : nat := ravel_aux 0 shape idx.
 
-Definition rel4 (p hs : hspace) : list nat :=
-  [b2n (is_subspace_of p hs); b2n (is_subspace_of hs p);
-   b2n (spans_same_space_as hs p); b2n (spans_same_space_as p hs)].
+Fixpoint inboxb (shape idx : list nat) : bool :=
+  match shape, idx with
+  | [], [] => true
+  | n :: shape', i :: idx' => (i <? n) && inboxb shape' idx'
+  | _, _ => false
+  end.
+
+(* a set of multi-indices inside the box [shape] as (bit mask over the raveled indices,
+   number of elements); a set with an element outside the box gets the impossible size 999999.
+   For duplicate-free sets inside the box the encoding is injective. *)
+Definition enc (shape : list nat) (s : list mi) : list N :=
+  if forallb (inboxb shape) s
+  then [fold_left (fun acc x => N.lor acc (N.shiftl 1 (N.of_nat (ravel shape x)))) s 0%N; N.of_nat (length s)]
+  else [0%N; 999999%N].
+
+Fixpoint row_mask (j : N) (r : list bool) : N :=
+  match r with [] => 0%N | b :: r' => N.lor (if b then N.shiftl 1 j else 0%N) (row_mask (N.succ j) r') end.
+
+Fixpoint bits (l : list bool) : N :=
+  match l with [] => 1%N | b :: l' => N.add (if b then 1%N else 0%N) (N.mul 2 (bits l')) end.
+
+Definition rel4 (p hs : hspace) : list bool :=
+  [is_subspace_of p hs; is_subspace_of hs p; spans_same_space_as hs p; spans_same_space_as p hs].
 
 (* (l, k, cells, funcs): arguments of the support queries *)
 Definition query := (nat * nat * list mi * list mi)%type.
 
-Definition obs_of (ok : bool) (st : hspace) (ret : list set) (prev root : hspace) (first with_inc : bool)
-                  (qs : list query) : ob :=
+Definition pairs_N (l : list (nat * nat)) : list N := flat_map (fun r => [N.of_nat (fst r); N.of_nat (snd r)]) l.
+
+Definition cshape (st : hspace) (k : nat) := tp_numspans (msh st k).
+Definition fshape (st : hspace) (k : nat) := tp_numdofs (msh st k).
+
+Definition obs_of (ok : bool) (st : hspace) (ret : list set) (prev root : hspace)
+                  (first with_inc with_tables : bool) (qs : list query) : ob :=
   let L := numlevels st in
-  [[ [b2n ok; L] ]]
-  ++ flat_map (fun k => let l := lvl st k in [lv_active l; lv_deact l; lv_actfun l; lv_deactfun l]) (seq 0 L)
-  ++ map (fun k => nth k ret []) (seq 0 L)
-  ++ [map (fun x => fst x :: snd x) (active_cells_flat st); map (fun x => fst x :: snd x) (active_functions_flat st)]
-  ++ [if with_inc then map row_idx (incidence st) else []]
-  ++ [[rel4 prev st ++ (if first then [] else rel4 root st)]]
-  ++ flat_map (fun k => let m := msh st k in
-                 [[tp_numspans m; tp_numdofs m]] ++ map pairs_mi (tp_ms m) ++ map pairs_mi (tp_sf m)) (seq 0 L)
+  [N.of_nat (b2n ok); N.of_nat L]
+  ++ flat_map (fun k => let l := lvl st k in
+        enc (cshape st k) (lv_active l) ++ enc (cshape st k) (lv_deact l)
+        ++ enc (fshape st k) (lv_actfun l) ++ enc (fshape st k) (lv_deactfun l)) (seq 0 L)
+  ++ flat_map (fun k => enc (cshape st k) (nth k ret [])) (seq 0 L)
+  ++ (if with_inc then N.of_nat (length (active_functions_flat st)) :: map (row_mask 0%N) (incidence st) else [])
+  ++ [bits (rel4 prev st ++ (if first then [] else rel4 root st))]
+  ++ (if with_tables then
+        flat_map (fun k => let m := msh st k in
+                 map N.of_nat (tp_numspans m) ++ map N.of_nat (tp_numdofs m)
+                 ++ flat_map pairs_N (tp_ms m) ++ flat_map pairs_N (tp_sf m)) (seq 0 L)
+      else [])
   ++ flat_map (fun q => let '(l, k, cells, funcs) := q in
-                 [cell_support_extension st l cells k; function_support_extension st l funcs k;
-                  support (msh st l) funcs; supported_in (msh st l) cells]) qs.
+        enc (cshape st k) (cell_support_extension st l cells k)
+        ++ enc (fshape st k) (function_support_extension st l funcs k)
+        ++ enc (cshape st l) (support (msh st l) funcs)
+        ++ enc (fshape st l) (supported_in (msh st l) cells)) qs.
 
 Definition step_full (st : hspace) (o : op) : hspace * bool * list set :=
   match o with
@@ -48,27 +82,26 @@ Definition step_full (st : hspace) (o : op) : hspace * bool * list set :=
       end
   end.
 
-(* per call: the op, whether the incidence matrix is compared, the query arguments, and
-   whether this step is compared at all *)
-Definition stepinfo := (op * bool * list query * bool)%type.
+(* per call: the op, whether the incidence matrix / the mesh tables are compared, the query
+   arguments, and whether this step is compared at all *)
+Definition stepinfo := (op * bool * bool * list query * bool)%type.
 
 Fixpoint obs_steps (root st : hspace) (first : bool) (steps : list stepinfo) : list (option ob) :=
   match steps with
   | [] => []
-  | (o, with_inc, qs, cmp) :: rest =>
+  | (o, with_inc, with_tables, qs, cmp) :: rest =>
       let '(st', ok, ret) := step_full st o in
-      (if cmp then Some (obs_of ok st' ret st root first with_inc qs) else None)
+      (if cmp then Some (obs_of ok st' ret st root first with_inc with_tables qs) else None)
       :: obs_steps root st' false rest
   end.
 
 Definition model_obs (axes : list axis) (disp : option nat) (steps : list stepinfo) : list (option ob) :=
   let root := hs_init axes disp in obs_steps root root true steps.
 
-
 Fixpoint ob_eqb (a b : ob) : bool :=
   match a, b with
   | [], [] => true
-  | x :: a', y :: b' => set_eqb x y && ob_eqb a' b'
+  | x :: a', y :: b' => N.eqb x y && ob_eqb a' b'
   | _, _ => false
   end.
 Definition oob_eqb (a b : option ob) : bool :=
@@ -92,7 +125,7 @@ Definition agrees (c : case) : bool :=
 Fixpoint bad (k : nat) (cs : list case) : list nat :=
   match cs with [] => [] | c :: cs' => if agrees c then bad (S k) cs' else k :: bad (S k) cs' end.
 
-(* the executable property predicates on the model state after every call (self-check of the model) *)
+(* the executable property predicates on the model state after a history (self-check of the model) *)
 Definition model_props (axes : list axis) (disp : option nat) (ops : list op) : bool :=
   let st := run (hs_init axes disp) ops in
   cells_inv_b st && funcs_inv_b st.
